@@ -1,0 +1,22 @@
+//go:build verif
+
+// Contracts for gzv (contract-based deductive verification, /verif). Comment-only file.
+package mr
+
+// C05 worker cap of MapReduce: executeMappers takes a slot of `pool` (capacity = workers) before it starts a mapper and
+// gives it back itself when the source is exhausted; every mapper goroutine gives its slot back on return and on panic.
+//@ func executeMappers
+//@   property C05
+//@   flag private_channels callbacks_noheap
+//@   requires mCtx.workers >= 1
+//@   ghost at begin loop 0: l0 = chanLen(pool)
+//@   call go#0: assert chanLen(pool) == l0 + 1 && chanLen(pool) <= chanCap(pool) && chanCap(pool) == mCtx.workers
+//@   call return#2: assert chanLen(pool) == l0
+//@   loop 0: invariant chanCap(pool) == mCtx.workers && mCtx.workers >= 1
+
+//@ func executeMappers closure 1
+//@   property C05
+//@   flag private_channels callbacks_noheap
+//@   requires chanLen(pool) >= 1
+//@   ensures  chanLen(pool) == old(chanLen(pool)) - 1
+//@   ensures_panic false
